@@ -9,6 +9,7 @@ import KVerif.Drv.C02
 import KVerif.Drv.C14
 import KVerif.Drv.C18
 import KVerif.Drv.C07
+import KVerif.Drv.C01
 open KVerif.Drv
 
 /-- kvdrv <prop>: one case line in, one `M <model> ## S <spec>` line out. -/
@@ -26,6 +27,8 @@ def dispatch (prop : String) : Option (String → String × String) :=
   | "C14o" => some C14.runOracle
   | "C18" => some C18.run
   | "C07" => some (Kan.run "KAN")
+  | "C01" => some (Kan.run "KAN")
+  | "C01o" => some C01o.runOracle
   | "C07o" => some C07o.runOracle
   | "C18o" => some C18.runOracle
   | "LALL" => some (Lay.run "LAY")
